@@ -79,6 +79,7 @@ VIRTUAL = ["entity_id", "last_changed", "last_updated", "last_reported"]
 N_SLOTS = 2
 
 VALUES = ["on", "off", "5", "", "unknown", 0, 1, 5, -3, 1.0, 1.5, True, False, None, [1, "x"], [], {"k": 1}, {}]
+EQ_VALUES = [0, False, 1, True, 1.0]
 EXT_STATES = ["on", "off", "5", "1", "", "idle"]
 
 
@@ -89,6 +90,8 @@ def J(val) -> str:
 
 # ------------------------------------------------------------------ generation
 def _gen_val(rng: random.Random):
+    if rng.random() < 0.2:
+        return rng.choice(EQ_VALUES)  # equal under ==, different type: HA keeps the old attributes
     return copy.deepcopy(rng.choice(VALUES))
 
 
@@ -96,7 +99,7 @@ def _gen_attrs(rng: random.Random, p: float = 0.55) -> dict:
     return {a: _gen_val(rng) for a in ATTRS if rng.random() < p}
 
 
-def _gen_set(rng: random.Random, ent: str) -> dict:
+def _gen_set(rng: random.Random, ent: str, captured: list[int]) -> dict:
     """state.set in one of its argument combinations."""
     vm = rng.choice(["omit", "pos", "pos", "kw"])
     val = {"m": vm}
@@ -104,8 +107,8 @@ def _gen_set(rng: random.Random, ent: str) -> dict:
         roll = rng.random()
         if roll < 0.15:
             val["v"] = None
-        elif roll < 0.35:
-            val["slot"] = rng.randrange(N_SLOTS)
+        elif roll < 0.4 and captured:
+            val["slot"] = rng.choice(captured)
         else:
             val["v"] = _gen_val(rng)
     nm = rng.choice(["omit", "omit", "kw", "kw", "pos"])
@@ -123,12 +126,13 @@ def _gen_set(rng: random.Random, ent: str) -> dict:
     return {"k": "set", "e": ent, "val": val, "na": na, "kw": kw}
 
 
-def _gen_wop(rng: random.Random, ents: list[str], hot: str | None, collide: bool, shadow_names: list[str]) -> dict:
-    """One writer operation (without timing)."""
+def _gen_wop(rng: random.Random, ents: list[str], hot: str | None, svc: list[str], shadow_names: list[str],
+             captured: list[int]) -> dict:
+    """One writer operation (without timing). ``captured``: slots that hold a snapshot so far (updated)."""
     roll = rng.random()
     if shadow_names and roll < 0.12:
         ent = rng.choice(shadow_names)
-        kind = rng.choice(["read", "read", "assign", "del"])
+        kind = rng.choice(["read", "read", "read", "assign", "assign", "del"])
         op = {"k": kind, "e": ent}
         if kind == "assign":
             op["v"] = _gen_val(rng)
@@ -139,24 +143,29 @@ def _gen_wop(rng: random.Random, ents: list[str], hot: str | None, collide: bool
     weights = [6.0] * len(ents) + [1.0, 1.0]
     ent = hot if (hot is not None and rng.random() < 0.55) else rng.choices(pool, weights)[0]
     by_name_ok = ent not in shadow_names  # by-name forms through a shadowing variable: only the three above
-    is_coll = collide and ent == COLLIDE_ENT
+    is_coll = ent in svc
     attr = rng.choice(ATTRS)
     kind = rng.choices(
         ["read", "cap", "insp", "insp_attr", "read_attr", "get", "assign", "attr_assign", "set", "setattr",
          "del", "exist", "names", "getattr", "svc_call"],
-        [7, 7, 7, 4, 7, 7, 9, 8, 16, 5, 7, 5, 3, 5, 4 if is_coll else 0],
+        [7, 6, 8, 4, 7, 7, 9, 8, 16, 5, 6, 5, 3, 5, 5 if (is_coll and by_name_ok) else 0],
     )[0]
+    if kind in ("insp", "insp_attr") and not captured:
+        kind = "cap"
     if kind == "read":
         if not by_name_ok:
             return {"k": "get", "name": ent}
         return {"k": "read", "e": ent}
     if kind == "cap":
         via = "get" if (is_coll or not by_name_ok) else rng.choice(["name", "get"])
-        return {"k": "cap", "e": ent, "slot": rng.randrange(N_SLOTS), "via": via}
+        slot = rng.randrange(N_SLOTS)
+        if slot not in captured:
+            captured.append(slot)
+        return {"k": "cap", "e": ent, "slot": slot, "via": via}
     if kind == "insp":
-        return {"k": "insp", "slot": rng.randrange(N_SLOTS)}
+        return {"k": "insp", "slot": rng.choice(captured)}
     if kind == "insp_attr":
-        return {"k": "insp_attr", "slot": rng.randrange(N_SLOTS), "attr": rng.choice(ATTRS + VIRTUAL)}
+        return {"k": "insp_attr", "slot": rng.choice(captured), "attr": rng.choice(ATTRS + VIRTUAL)}
     if kind == "read_attr":
         at = rng.choice(ATTRS + ATTRS + VIRTUAL)
         if is_coll or not by_name_ok:
@@ -168,16 +177,16 @@ def _gen_wop(rng: random.Random, ents: list[str], hot: str | None, collide: bool
         return {"k": "get", "name": f"{ent}.{rng.choice(ATTRS + ATTRS + VIRTUAL)}"}
     if kind == "assign":
         if not by_name_ok:
-            return _gen_set(rng, ent)
-        if rng.random() < 0.2:
-            return {"k": "assign", "e": ent, "slot": rng.randrange(N_SLOTS)}
+            return _gen_set(rng, ent, captured)
+        if captured and rng.random() < 0.25:
+            return {"k": "assign", "e": ent, "slot": rng.choice(captured)}
         return {"k": "assign", "e": ent, "v": _gen_val(rng)}
     if kind == "attr_assign":
         if is_coll or not by_name_ok:
             return {"k": "setattr", "e": ent, "attr": attr, "v": _gen_val(rng)}
         return {"k": "attr_assign", "e": ent, "attr": attr, "v": _gen_val(rng)}
     if kind == "set":
-        return _gen_set(rng, ent)
+        return _gen_set(rng, ent, captured)
     if kind == "setattr":
         return {"k": "setattr", "e": ent, "attr": attr, "v": _gen_val(rng)}
     if kind == "del":
@@ -192,8 +201,8 @@ def _gen_wop(rng: random.Random, ents: list[str], hot: str | None, collide: bool
     if kind == "names":
         return {"k": "names", "dom": rng.choice([None, "pyscript", "sensor", "light"]), "m": rng.choice(["pos", "kw"])}
     if kind == "getattr":
-        if rng.random() < 0.3:
-            return {"k": "getattr", "slot": rng.randrange(N_SLOTS)}
+        if captured and rng.random() < 0.3:
+            return {"k": "getattr", "slot": rng.choice(captured)}
         return {"k": "getattr", "e": ent}
     return {"k": "svc_call", "e": ent}
 
@@ -202,7 +211,11 @@ def gen(rng: random.Random, tier: str) -> dict:
     cfg = gen_cfg(rng)
     cfg["exec_latency_ms"] = [0.0, 0.0]  # no executor jobs on this path
     ents = ENT_POOL[: rng.choice([2, 3, 3])]
-    collide = COLLIDE_ENT in ents and rng.random() < 0.5
+    svc = []  # names of native HA services registered by the harness before the writers start
+    if COLLIDE_ENT in ents and rng.random() < 0.5:
+        svc.append(COLLIDE_ENT)
+    if rng.random() < 0.25:
+        svc += [G_ENT, L_ENT]  # the shadowed names are service names as well: variables win over both
     gshadow = rng.random() < 0.3
     initial = {}
     for ent in ents:
@@ -214,19 +227,20 @@ def gen(rng: random.Random, tier: str) -> dict:
     cfg["initial_states"] = initial
     max_ops = TIERS[tier]["max_ops"]
     n_w = rng.choice([1, 2, 2, 3])
-    total = rng.randint(4, max_ops)
+    total = rng.randint(8, max_ops)
     n_ext = rng.randint(0, max(1, total // 4))
     hot = rng.choice(ents) if rng.random() < 0.6 else None
     burst_p = rng.choice([0.2, 0.35, 0.6])
     writers = []
-    share = max(1, (total - n_ext) // n_w)
+    share = max(2, (total - n_ext) // n_w)
     for wi in range(n_w):
         lshadow = rng.random() < 0.3
         shadow_names = ([G_ENT] if gshadow else []) + ([L_ENT] if lshadow else [])
         wops = []
-        for _ in range(rng.randint(max(1, share // 2), share)):
+        captured: list[int] = []
+        for _ in range(rng.randint(max(2, share // 2), share)):
             op = gen_delay(rng, burst_p=burst_p, max_steps=4)
-            op.update(_gen_wop(rng, ents, hot, collide, shadow_names))
+            op.update(_gen_wop(rng, ents, hot, svc, shadow_names, captured))
             wops.append(op)
         writers.append({"name": f"w{wi}", "lshadow": lshadow, "ops": wops})
     ops = []
@@ -247,7 +261,7 @@ def gen(rng: random.Random, tier: str) -> dict:
         ops.insert(rng.randint(1, len(ops)), op)
     return {
         "cfg": cfg,
-        "spec": {"ents": ents, "collide": collide, "gshadow": gshadow, "writers": writers},
+        "spec": {"ents": ents, "svc": svc, "gshadow": gshadow, "writers": writers},
         "ops": ops,
     }
 
@@ -413,6 +427,7 @@ def simplify(scn: dict):
 
 # ------------------------------------------------------------------ world with the photographing mark hook
 _MISSING = object()
+_TAINT = object()
 
 
 class C16World(World):
@@ -511,12 +526,12 @@ def run(scn: dict) -> dict:
 
         await w.settle()
         w.natives["pre"] = w.pre
-        if spec["collide"]:
+        for name in spec["svc"]:
             @callback
-            def handler(call):
-                w.svc_calls.append(dict(call.data))
+            def handler(call, _name=name):
+                w.svc_calls.append(dict(call.data, _svc=_name))
 
-            w.hass.services.async_register("pyscript", "e2", handler)
+            w.hass.services.async_register(*name.split("."), handler)
         w.steps.append({"k": "init", "photo": w.photo(), "t": w.vts()})
         for op in scn["ops"]:
             await wait_op(w, op)
@@ -600,7 +615,6 @@ def _set_combo(op: dict) -> str:
 # ------------------------------------------------------------------ oracle
 def oracle(w: C16World, scn: dict):  # noqa: C901  pylint: disable=too-many-branches,too-many-statements,too-many-locals
     spec = scn["spec"]
-    sub = "legacy" if w.cfg["legacy"] else "new"
     writers = {wr["name"]: wr for wr in spec["writers"]}
     started = [op["w"] for op in scn["ops"] if op["kind"] == "start"]
     violations: list[dict] = []
@@ -719,7 +733,7 @@ def oracle(w: C16World, scn: dict):  # noqa: C901  pylint: disable=too-many-bran
 
         def classify_none(ent_, diff, exp, got, _k=k, _desc=desc):
             # an operation that must not touch the state machine did
-            return ("unexpected_write", {"op": _k, "fields": "+".join(diff), "subsystem": sub})
+            return ("unexpected_write", {"op": _k, "fields": "+".join(diff)})
 
         classify = classify_none
 
@@ -728,9 +742,11 @@ def oracle(w: C16World, scn: dict):  # noqa: C901  pylint: disable=too-many-bran
             which, obj, oattr = shadow
             if cur is not None:
                 w.probe("local_shadows_state" if which == "local" else "global_shadows_state")
-            sig = {"op": k, "shadow": which, "subsystem": sub}
+            sig = {"op": k, "shadow": which}
             if k == "read":
-                if oattr in obj:
+                if oattr in obj and obj[oattr] is _TAINT:
+                    pass
+                elif oattr in obj:
                     if st != "ok" or res["t"] == "SV" or J(res.get("v")) != J(obj[oattr]) or \
                             (obj[oattr] is None) != (res["t"] == "none"):
                         viol("precedence", sig, f"{desc}: `{ent.split('.')[0]}` is a {which} Python variable whose "
@@ -745,24 +761,28 @@ def oracle(w: C16World, scn: dict):  # noqa: C901  pylint: disable=too-many-bran
                 else:
                     obj[oattr] = copy.deepcopy(op.get("v"))
             elif k == "del":
-                if oattr in obj:
-                    if st != "ok":
-                        viol("precedence", sig, f"{desc}: del through {which} variable {got_txt}", t)
-                    del obj[oattr]
+                if oattr in obj and st != "ok":
+                    viol("precedence", sig, f"{desc}: `{ent.split('.')[0]}` is a {which} Python variable with attribute "
+                         f"{oattr}; del of that attribute {got_txt}", t)
                 # deleting an attribute that is already gone: AttributeError in Python; outcome not judged
 
             def classify_shadow(ent_, diff, exp, got, _sig=sig, _which=which):
-                return ("precedence", dict(_sig, effect="state_machine_written"))
+                return ("precedence", _sig)
 
-            check_photo(step, desc, classify_shadow)
+            wrote = check_photo(step, desc, classify_shadow)
+            if k == "del" and oattr in obj:
+                if wrote or st != "ok":
+                    obj[oattr] = _TAINT  # the del went elsewhere: what the variable holds now is not judged
+                else:
+                    del obj[oattr]
             continue
 
         # ------------------------------------------------------------ service name collision
-        is_coll = spec["collide"] and ent == COLLIDE_ENT
+        is_coll = ent in spec["svc"]
         if is_coll and k in ("read", "svc_call"):
             if cur is not None:
                 w.probe("service_name_shadows_state")
-            sig = {"op": k, "shadow": "service", "subsystem": sub}
+            sig = {"op": k, "shadow": "service"}
             if k == "read":
                 if st != "ok" or res["t"] != "callable":
                     viol("precedence", sig, f"{desc}: a service {ent} exists, the name must resolve to the service, "
@@ -771,7 +791,7 @@ def oracle(w: C16World, scn: dict):  # noqa: C901  pylint: disable=too-many-bran
                 if st != "ok":
                     viol("precedence", sig, f"{desc}: a service {ent} exists, the call {got_txt}", t)
                 else:
-                    expected_svc_tags.append((f"{wname}:{oi}", desc, t))
+                    expected_svc_tags.append((ent, f"{wname}:{oi}", desc, t))
             check_photo(step, desc, classify)
             continue
         if k == "svc_call":
@@ -790,7 +810,7 @@ def oracle(w: C16World, scn: dict):  # noqa: C901  pylint: disable=too-many-bran
                 w.probe("missing_attr_read")
             else:
                 case, exp_exc = ("attr" if want_attr else "entity"), None
-            sig = {"op": "read", "via": via, "case": case, "subsystem": sub}
+            sig = {"op": "read", "via": via, "case": case}
             if cur is None and ent in deleted:
                 w.probe("delete_then_read")
             if exp_exc is not None:
@@ -830,7 +850,7 @@ def oracle(w: C16World, scn: dict):  # noqa: C901  pylint: disable=too-many-bran
                 live = model.get(held["ent"])
                 if entry_diff(held["entry"], live):
                     w.probe("snapshot_reread_after_write")
-                sig = {"op": k, "subsystem": sub}
+                sig = {"op": k}
                 if k == "insp":
                     stats["reads"] += 1
                     fields = _insp_diff(held["insp"], res) if st == "ok" else ["raised"]
@@ -862,8 +882,7 @@ def oracle(w: C16World, scn: dict):  # noqa: C901  pylint: disable=too-many-bran
         if k == "exist":
             exp_v = cur is not None and (attr is None or attr in cur["a"])
             if st != "ok" or res["t"] != "bool" or res["v"] != exp_v:
-                viol("exist", {"op": "state.exist", "what": "attr" if attr else "entity", "expected": exp_v,
-                               "subsystem": sub}, f"{desc}: {ent} is {_fmt(cur)}; expected {exp_v}, but it {got_txt}", t)
+                viol("exist", {"op": "state.exist", "what": "attr" if attr else "entity", "expected": exp_v}, f"{desc}: {ent} is {_fmt(cur)}; expected {exp_v}, but it {got_txt}", t)
             else:
                 stats["reads"] += 1
             check_photo(step, desc, classify)
@@ -876,7 +895,7 @@ def oracle(w: C16World, scn: dict):  # noqa: C901  pylint: disable=too-many-bran
                 pass  # the photo comparison below reports it
             got_v = res.get("v") if st == "ok" and res["t"] == "val" else None
             if not isinstance(got_v, list) or sorted(got_v) != exp_v:
-                viol("names", {"op": "state.names", "domain": "none" if dom is None else "given", "subsystem": sub},
+                viol("names", {"op": "state.names", "domain": "none" if dom is None else "given"},
                      f"{desc}: expected {exp_v}, but it {got_txt}", t)
             else:
                 stats["reads"] += 1
@@ -888,7 +907,7 @@ def oracle(w: C16World, scn: dict):  # noqa: C901  pylint: disable=too-many-bran
                 if held is not None:
                     exp_v = held["insp"]["a"]
                     if st != "ok" or res["t"] != "val" or J(res["v"]) != J(exp_v):
-                        viol("getattr", {"op": "state.getattr", "arg": "snapshot", "subsystem": sub},
+                        viol("getattr", {"op": "state.getattr", "arg": "snapshot"},
                              f"{desc}: snapshot captured as {_res_txt(held['insp'])}; expected {exp_v}, but it {got_txt}", t)
                     else:
                         stats["reads"] += 1
@@ -898,7 +917,7 @@ def oracle(w: C16World, scn: dict):  # noqa: C901  pylint: disable=too-many-bran
                 else:
                     ok = st == "ok" and res["t"] == "val" and J(res["v"]) == J(cur["a"])
                 if not ok:
-                    viol("getattr", {"op": "state.getattr", "arg": "missing" if cur is None else "name", "subsystem": sub},
+                    viol("getattr", {"op": "state.getattr", "arg": "missing" if cur is None else "name"},
                          f"{desc}: {ent} is {_fmt(cur)}, but it {got_txt}", t)
                 else:
                     stats["reads"] += 1
@@ -975,7 +994,7 @@ def oracle(w: C16World, scn: dict):  # noqa: C901  pylint: disable=too-many-bran
         combo = _set_combo(op) if k == "set" else None
         opname = {"assign": "assign", "set": "state.set", "attr_assign": "attr_assign", "setattr": "state.setattr",
                   "del": "del" if op.get("via") == "stmt" else "state.delete"}[k]
-        sig = {"op": opname, "subsystem": sub}
+        sig = {"op": opname}
         if combo:
             sig["args"] = combo
         if k == "assign":
@@ -1030,7 +1049,7 @@ def oracle(w: C16World, scn: dict):  # noqa: C901  pylint: disable=too-many-bran
         def classify_write(ent_, diff, exp, got, _k=k, _sig=sig, _ent=ent, _attr=attr, _op=op, _before=before,
                            _kw=primary_kw):
             if ent_ != _ent:
-                return ("unexpected_write", {"op": _sig["op"], "fields": "+".join(diff), "subsystem": sub})
+                return ("unexpected_write", {"op": _sig["op"], "fields": "+".join(diff)})
             if "exists" in diff:
                 if _k == "del":
                     return ("delete", _sig)
@@ -1070,11 +1089,11 @@ def oracle(w: C16World, scn: dict):  # noqa: C901  pylint: disable=too-many-bran
         last_write[ent] = (wname, step["iter"])
 
     # ---- service calls that were accepted must have reached the service
-    got_tags = [c.get("tag") for c in w.svc_calls]
-    for tag, desc, t in expected_svc_tags:
-        if tag not in got_tags:
-            viol("precedence", {"op": "svc_call", "shadow": "service", "effect": "not_called", "subsystem": sub},
-                 f"{desc}: the call returned but service pyscript.e2 was never invoked with tag {tag}", t)
+    got_tags = [(c.get("_svc"), c.get("tag")) for c in w.svc_calls]
+    for name, tag, desc, t in expected_svc_tags:
+        if (name, tag) not in got_tags:
+            viol("precedence", {"op": "svc_call", "shadow": "service", "effect": "not_called"},
+                 f"{desc}: the call returned but service {name} was never invoked with tag {tag}", t)
 
     violations.sort(key=lambda v: v.get("t", 0.0))
     nontrivial = stats["writes"] >= 2 and stats["reads"] >= 2
